@@ -7,6 +7,7 @@ from skgstat import MetricSpace
 from skgstat.MetricSpace import MetricSpacePair, ProbabalisticMetricSpace
 
 from .common import frs, fr, parse_ints, quiet, close, gen_coords
+from .common import guarded
 from . import vario
 
 INFO = dict(
@@ -19,6 +20,7 @@ INFO = dict(
     assumptions=[])
 
 
+@guarded
 def check_space(ctx, rng):
     dim = int(rng.choice([1, 2, 3]))
     kind = str(rng.choice(['uniform', 'clustered', 'lattice', 'dup']))
@@ -106,6 +108,7 @@ def check_space(ctx, rng):
         ctx.violation('diagonal', 'diagonal(%r) = %r, expected %r' % (idx.tolist(), sub.tolist(), want.tolist()), case)
 
 
+@guarded
 def check_pair(ctx, rng):
     dim = int(rng.choice([2, 3]))
     kind = str(rng.choice(['uniform', 'lattice', 'clustered']))
@@ -175,17 +178,22 @@ def check_pair(ctx, rng):
                 return
 
 
+@guarded
 def check_sampled(ctx, rng):
     n = int(rng.integers(8, 40))
     coords = gen_coords(rng, n, dim=2, kind=str(rng.choice(['uniform', 'lattice'])))
     samples = float(rng.choice([0.3, 0.5, 0.8])) if rng.random() < 0.6 else int(rng.integers(3, n))
-    seed = int(rng.integers(0, 10000))
+    seed = int(rng.choice([0, 1, int(rng.integers(2, 10000))]))
+    # seeds arrive as Python ints or as NumPy integer scalars (an element of an index array, rng.integers(...))
+    seed_type = str(rng.choice(['int', 'int', 'int64', 'int32', 'uint16']))
+    seed_obj = seed if seed_type == 'int' else getattr(np, seed_type)(seed)
     md = None if rng.random() < 0.5 else float(rng.uniform(20, 80))
-    case = dict(coords=coords.tolist(), samples=samples, seed=seed, max_dist=md)
+    case = dict(coords=coords.tolist(), samples=samples, seed=seed, seed_type=seed_type, max_dist=md)
     mats = []
     for rep in range(2):
+        np.random.seed(int(rng.integers(0, 2 ** 31)))      # the global stream must not matter for a seeded space
         with quiet():
-            pm = ProbabalisticMetricSpace(coords.copy(), 'euclidean', md, samples=samples, rnd=seed)
+            pm = ProbabalisticMetricSpace(coords.copy(), 'euclidean', md, samples=samples, rnd=seed_obj)
             D = pm.dists.tocoo()
             mats.append((sorted(zip(D.row.tolist(), D.col.tolist(), D.data.tolist())), pm.lidx.copy(), pm.ridx.copy()))
     ent, lidx, ridx = mats[0]
@@ -193,7 +201,7 @@ def check_sampled(ctx, rng):
     ctx.case(signature=('sampled', tuple((a, b) for a, b, _ in ent)[:40]) if len(ent) >= 2 else None,
              stream='sampled', sample=dict(n=n, samples=samples, seed=seed, entries=len(ent)))
     if mats[0][0] != mats[1][0]:
-        ctx.violation('sampled-not-reproducible', 'two constructions with seed %d differ' % seed, case)
+        ctx.violation('sampled-not-reproducible', 'two constructions with seed %s(%d) differ' % (seed_type, seed), case)
         return
     if len(set(lidx.tolist())) != len(lidx) or len(set(ridx.tolist())) != len(ridx):
         ctx.violation('sampled-duplicates', 'sample indices contain duplicates', case)
